@@ -9,6 +9,7 @@
 mod cg;
 mod checks;
 mod ctx;
+mod history;
 mod json;
 mod ledger;
 mod monitors;
